@@ -125,7 +125,10 @@ def run(res, tier, seed):
         if n % 2003 == 0:
             res.sample({"q": q, "src": s, "ep": ep, "before": out[3 * n], "closest": out[3 * n + 1], "after": out[3 * n + 2]})
         if n % (6 if tier == "quick" else 3) == 0 and q and s:
-            v = public_case(nap, q, s, ep)
+            try:
+                v = public_case(nap, q, s, ep)
+            except Exception as ex:
+                v = {"key": {"op": "public", "part": "exception"}, "what": "public value_from/interpolate raised %s: %s" % (type(ex).__name__, str(ex)[:120]), "input": {"q": q, "src": s, "ep": ep}}
             res.evaluations += 1
             if v:
                 res.violations.append(v)
